@@ -19,6 +19,7 @@ from zope.interface.adapter import AdapterRegistry, VerifyingAdapterRegistry
 from zope.interface import declarations as _decl, implementer
 from .common import wmod, newworld
 
+MySuper = type('MySuper', (super,), {})     # a subclass of super is a super proxy too
 BUILTIN = complex       # declarations for it live in BuiltinImplementationSpecifications
 
 
@@ -112,46 +113,47 @@ def check(W, M, shape, flavour):
         names = {W[n]: n for n, _ in SHAPES[shape]}
         mro = [names[c] for c in W[leaf].__mro__ if c is not object]
         for idx, cname in enumerate(mro):
-            s = super(W[cname], ob)
-            rest = mro[idx + 1:]
-            exp = set()
-            for c in rest:
-                exp |= M.impl(c)
-            got = {x.__name__ for x in providedBy(s).flattened()} - {'Interface'}
-            got2 = {x.__name__ for x in implementedBy(s).flattened()} - {'Interface'}
-            if got != exp:
-                return ('providedBy(super)', leaf, cname, sorted(got), sorted(exp))
-            if got2 != exp:
-                return ('implementedBy(super)', leaf, cname, sorted(got2), sorted(exp))
-            for i in IF:
-                if W[i].providedBy(s) != (i in exp):
-                    return ('I.providedBy(super)', leaf, cname, i)
-            for entry in ('queryAdapter', 'adapter_hook', 'queryMultiAdapter', 'I(super)'):
-                if entry == 'queryAdapter':
-                    r = reg.queryAdapter(s, W['P'])
-                elif entry == 'adapter_hook':
-                    r = reg.adapter_hook(W['P'], s)
-                elif entry == 'queryMultiAdapter':
-                    r = reg.queryMultiAdapter((s,), W['P'])
-                else:
-                    from zope.interface.interface import adapter_hooks
-                    saved = list(adapter_hooks)
-                    adapter_hooks[:] = [reg.adapter_hook]
-                    try:
-                        r = W['P'](s, None)
-                    finally:
-                        adapter_hooks[:] = saved
-                if exp:
-                    if r is None or r[1] is not ob:
-                        return ('adapter-gets-underlying-object:' + entry, leaf, cname, repr(r))
-                    first = [x.__name__ for x in providedBy(s).__sro__ if x.__name__ in IF][0]
-                    if r[0] != first or r[0] not in exp:
-                        return ('adapter-selected:' + entry, leaf, cname, r[0], first)
-                elif r is not None:
-                    return ('adapter-found-although-nothing-implemented:' + entry, leaf, cname)
-            r2 = reg.queryMultiAdapter((s, s), W['P'])
-            if exp and (r2 is None or r2[1] is not ob or r2[2] is not ob):
-                return ('queryMultiAdapter-two-supers', leaf, cname, repr(r2))
+          for sup in (super, MySuper):
+              s = sup(W[cname], ob)
+              rest = mro[idx + 1:]
+              exp = set()
+              for c in rest:
+                  exp |= M.impl(c)
+              got = {x.__name__ for x in providedBy(s).flattened()} - {'Interface'}
+              got2 = {x.__name__ for x in implementedBy(s).flattened()} - {'Interface'}
+              if got != exp:
+                  return ('providedBy(super)', leaf, cname, sorted(got), sorted(exp))
+              if got2 != exp:
+                  return ('implementedBy(super)', leaf, cname, sorted(got2), sorted(exp))
+              for i in IF:
+                  if W[i].providedBy(s) != (i in exp):
+                      return ('I.providedBy(super)', leaf, cname, i)
+              for entry in ('queryAdapter', 'adapter_hook', 'queryMultiAdapter', 'I(super)'):
+                  if entry == 'queryAdapter':
+                      r = reg.queryAdapter(s, W['P'])
+                  elif entry == 'adapter_hook':
+                      r = reg.adapter_hook(W['P'], s)
+                  elif entry == 'queryMultiAdapter':
+                      r = reg.queryMultiAdapter((s,), W['P'])
+                  else:
+                      from zope.interface.interface import adapter_hooks
+                      saved = list(adapter_hooks)
+                      adapter_hooks[:] = [reg.adapter_hook]
+                      try:
+                          r = W['P'](s, None)
+                      finally:
+                          adapter_hooks[:] = saved
+                  if exp:
+                      if r is None or r[1] is not ob:
+                          return ('adapter-gets-underlying-object:' + entry, leaf, cname, repr(r))
+                      first = [x.__name__ for x in providedBy(s).__sro__ if x.__name__ in IF][0]
+                      if r[0] != first or r[0] not in exp:
+                          return ('adapter-selected:' + entry, leaf, cname, r[0], first)
+                  elif r is not None:
+                      return ('adapter-found-although-nothing-implemented:' + entry, leaf, cname)
+              r2 = reg.queryMultiAdapter((s, s), W['P'])
+              if exp and (r2 is None or r2[1] is not ob or r2[2] is not ob):
+                  return ('queryMultiAdapter-two-supers', leaf, cname, repr(r2))
     return None
 
 
